@@ -176,7 +176,10 @@ func classify(model string, c *gridx.Case, dOut, dSt []string) string {
 func spaces(tier string) []*gridx.Space {
 	var out []*gridx.Space
 	for _, t := range tables.Stateful() {
-		T := 4
+		T := 5
+		if len(t.Letters) > 5 {
+			T = 4
+		}
 		if tier == "thorough" {
 			T = 6
 			if len(t.Letters) > 5 {
